@@ -7,17 +7,21 @@
 (* generator of schedules that the harness replays in real threads.          *)
 EXTENDS StamConcurrency, Json, SequencesExt
 
-CONSTANTS ShapeId, OpsId
+CONSTANTS ShapeId, OpsId, Rounds, Big
 
 VARIABLES s, sched
 vars == <<s, sched>>
 
-M(kind, standoff, changed) == [kind |-> kind, standoff |-> standoff, changed |-> changed]
+M(kind, standoff, changed) == [kind |-> kind, standoff |-> standoff, changed |-> changed, fmt |-> "json"]
+MT(standoff, changed) == [kind |-> "res", standoff |-> standoff, changed |-> changed, fmt |-> "txt"]
 Shape == [members |->
     CASE ShapeId = 1 -> <<M("set", TRUE, FALSE)>>                                          \* one unchanged stand-off dataset
       [] ShapeId = 2 -> <<M("set", TRUE, TRUE)>>                                           \* one changed stand-off dataset
-      [] ShapeId = 3 -> <<M("res", TRUE, FALSE), M("set", TRUE, FALSE), M("set", FALSE, FALSE)>>
-      [] ShapeId = 4 -> <<M("res", FALSE, FALSE), M("set", TRUE, TRUE), M("set", TRUE, FALSE)>>
+      [] ShapeId = 3 -> <<MT(TRUE, FALSE), M("set", TRUE, FALSE), M("set", FALSE, FALSE)>>
+      [] ShapeId = 4 -> <<MT(FALSE, FALSE), M("set", TRUE, TRUE), M("set", TRUE, FALSE)>>
+      [] ShapeId = 6 -> <<MT(TRUE, TRUE), M("set", FALSE, FALSE)>>                          \* a changed plain-text stand-off resource
+      [] ShapeId = 7 -> <<MT(TRUE, TRUE), M("set", TRUE, TRUE)>>
+      [] ShapeId = 8 -> <<M("res", TRUE, TRUE), M("set", TRUE, FALSE)>>                     \* a changed stand-off resource kept as JSON
       [] OTHER       -> <<M("set", FALSE, FALSE)>>]                                        \* nothing stand-off: no shared accesses
 FirstSet == CHOOSE i \in DOMAIN Shape.members : Shape.members[i].kind = "set" /\ \A j \in 1..(i - 1) : Shape.members[j].kind # "set"
 SetOp(i) == [op |-> "set", i |-> i]
@@ -30,15 +34,21 @@ Ops == CASE OpsId = 1 -> <<StoreOp, SetOp(FirstSet)>>
 
 Init == s = [g |-> InitGlobal(Shape), ths |-> [t \in DOMAIN Ops |-> InitThread(Shape, Ops[t])]] /\ sched = <<>>
 Next == \E t \in DOMAIN Ops :
+            /\ Rounds = 0                     \* (free-running rounds need no schedules: only the initial state)
             /\ ~s.ths[t].fin
             /\ LET r == CStep(Shape, s.g, s.ths[t], t) IN s' = [g |-> r.g, ths |-> [s.ths EXCEPT ![t] = r.th]]
             /\ sched' = Append(sched, t)
 Spec == Init /\ [][Next]_vars
+
+\* model checking the property needs neither the schedule nor the tags (history): states are identified without them
+SView == [g |-> s.g, ths |-> [t \in DOMAIN s.ths |-> [s.ths[t] EXCEPT !.tags = <<>>]]]
 
 Done == \A t \in DOMAIN Ops : s.ths[t].fin
 InvSequential == Done => SequentialResults(Shape, Ops, s)
 \* dataset ops name the member by its rank among the datasets (that is how the harness addresses it)
 SetRank(i) == Cardinality({j \in 1..i : Shape.members[j].kind = "set"})
 HarnessOps == [t \in DOMAIN Ops |-> IF Ops[t].op = "set" THEN [op |-> "set", i |-> Ops[t].i, rank |-> SetRank(Ops[t].i)] ELSE [op |-> "store", i |-> 0, rank |-> 0]]
-Emit == Done => PrintT(<<"REPLAY", ToJson(<<[ev |-> "ConcRun", a |-> [shape |-> Shape, ops |-> HarnessOps, schedule |-> sched]]>>)>>)
+\* free-running rounds (no schedule): one event per round
+FreeEmit == Rounds = 0 \/ PrintT(<<"REPLAY", ToJson([k \in 1..Rounds |-> [ev |-> "ConcFree", a |-> [shape |-> Shape, ops |-> HarnessOps, round |-> k, big |-> Big]]])>>)
+Emit == (Rounds = 0 /\ Done) => PrintT(<<"REPLAY", ToJson(<<[ev |-> "ConcRun", a |-> [shape |-> Shape, ops |-> HarnessOps, schedule |-> sched]]>>)>>)
 =============================================================================
